@@ -47,8 +47,14 @@ def regenerate(run):
 RULE = ("histories of 3-30 steps over <= 6 interfaces (random DAG), 0-2 metaclasses (possibly derived from each "
         "other, each implementing 0-2 interfaces), <= 5 classes (multiple inheritance, about half created with or "
         "inheriting a custom metaclass, created at any point, also after declarations on their bases), <= 6 instances (created and dropped at any point), all "
-        "nine declaration calls on classes, instances and class objects; all four query forms + directlyProvidedBy "
-        "for every live instance and class at every step (half of the cases) or at a random subset of steps, and at "
+        "nine declaration calls on classes, instances and class objects, with arguments that are interfaces, "
+        "directlyProvidedBy(t) / providedBy(t) objects and random nestings of them; built-in types (int, str, ...) and "
+        "their instances as classes / objects (TypeError / AttributeError as data, BuiltinImplementationSpecifications "
+        "cleaned per case); about 12% of the classes carry an old-style `__implemented__ = <interface | tuple | nested>` "
+        "attribute (also as bases of new-style classes, with later classImplements / Only / First); 22% of the cases "
+        "embed the before/after-split shape of classImplements on a class that inherits; all four query forms + directlyProvidedBy "
+        "for every live instance and class at every step (40% of the cases) or for a random SUBSET of the instances "
+        "and classes at a random subset of steps (which first queries happen when is part of the history), and at "
         "60% of the steps the class objects alone are asked first (providedBy(cls), I.providedBy(cls), "
         "directlyProvidedBy(cls)), before anything computes implementedBy(cls); "
         "about half of the cases embed the stale-cache shape (instance declaration, class narrowing/widening on "
@@ -62,7 +68,9 @@ TRUSTED_BASE = ["'interfaces a specification implies = interfaces reachable thro
                 "(implementedBy, Specification.__setBases/changed notification, Provides.__init__, ClassProvides.__init__, "
                 "_normalizeargs, Declaration.__sub__/interfaces(), getattr(ob,'__provides__'), providedBy): hand-written, "
                 "validated by the correspondence"]
-ASSUMPTIONS = ["declaration arguments are interfaces (not Declarations/Implements objects), `Interface` itself is never declared",
+ASSUMPTIONS = ["declaration arguments are interfaces, Declaration / Provides / ClassProvides objects and nested tuples of them; "
+               "Implements objects as arguments (live nodes of the specification graph) and `Interface` itself as a "
+               "declared interface are not generated (omitted from the model)",
                "metaclasses do not change their declarations during a history; no super() objects, no old-style "
                "__implemented__, no builtin types"]
 
@@ -217,9 +225,17 @@ class _Sim:
         self.cmeta.append(em)
         self.cbuiltin.append(None)
         self.cbases.append(bs)
-        self.asked.append([])
-        self.inherit.append(True)
-        self.ops.append({"op": "NewClass", "bases": bs, "m": m, "md": self.mdirect(em)})
+        old, shape = None, None
+        if rng.random() < 0.12:
+            # an old-style ``__implemented__ = ...`` attribute in the class body
+            old = [rng.randrange(self.ni) for _ in range(rng.choice([0, 1, 1, 1, 2, 2, 3]))]
+            shape = rng.choice(["single", "tuple", "tuple", "nested"])
+            self.tags.add("old-style")
+            if any(self.asked[b] or not self.inherit[b] for b in bs):
+                self.tags.add("old-style-over-declared-base")
+        self.asked.append(list(old) if old is not None else [])
+        self.inherit.append(old is None)
+        self.ops.append({"op": "NewClass", "bases": bs, "m": m, "md": self.mdirect(em), "old": old, "oldshape": shape})
         if len(bs) > 1:
             self.tags.add("multi-inherit")
         if em is not None:
@@ -264,14 +280,14 @@ class _Sim:
             self.tags.add("nested-args")
         return l, nest
 
-    def class_op(self, kind, c, l):
+    def class_op(self, kind, c, l, plain=False):
         if kind == "ClassImplementsFirst":
             x = l[0] if l else self.rng.randrange(len(self.ifaces))
             self.ops.append({"op": kind, "c": c, "x": x})
             self.asked[c] = self.asked[c] + [x]
         else:
             ints = list(l)
-            l, nest = self.decorate(l, only=kind.endswith("Only"))
+            l, nest = (list(l), None) if plain else self.decorate(l, only=kind.endswith("Only"))
             self.ops.append({"op": kind, "c": c, "l": l, "nest": nest})
             if kind.endswith("Only"):
                 self.asked[c] = ints
@@ -349,6 +365,39 @@ class _Sim:
             o = rng.choice(live)
             self.obj_op(rng.choice(OBJ_OPS + ["DirectlyProvides", "AlsoProvides"]), ("i", o),
                         self.ilist(prefer=self.implied(self.inst[o])))
+
+    def split_shape(self, filler):
+        """classImplements with both halves of its before/after split non-empty, on a class that
+        inherits interfaces from a base: B implements X; C(B) declares d; classImplements(C, sub-of-d, y)"""
+        rng = self.rng
+        ni = len(self.ifaces)
+        pairs = [(d, x) for d in range(ni) for x in range(ni) if x != d and d in self.up[x]]
+        if not pairs or len(self.cbases) >= 4:
+            return
+        d, sub = rng.choice(pairs)
+        b = self.new_class([])
+        if self.cbuiltin[b] is not None or not self.inherit[b]:
+            return
+        xs = [x for x in range(ni) if x not in self.up[sub] and sub not in self.up[x]]
+        inh = rng.choice(xs) if xs else rng.randrange(ni)
+        self.class_op(rng.choice(["Implementer", "ClassImplements"]), b, [inh], plain=True)
+        filler()
+        c = self.new_class([b])
+        if self.cbuiltin[c] is not None or not self.inherit[c]:
+            return
+        self.class_op(rng.choice(["Implementer", "ClassImplements", "ClassImplementsFirst"]), c, [d], plain=True)
+        filler()
+        implied = self.implied(c)
+        rest = [x for x in range(ni) if x not in implied and d not in self.up[x]]
+        if sub in implied or not rest:
+            return
+        l = [sub, rng.choice(rest)]
+        rng.shuffle(l)
+        self.class_op(rng.choice(["Implementer", "ClassImplements"]), c, l, plain=True)
+        self.tags.add("before-after-split")
+        self.tags.add("split-shape")
+        if rng.random() < 0.6 and len(self.inst) < 6:
+            self.new_instance(c)
 
     def stale_shape(self, filler):
         """instance declaration; the class (or a class it inherits from) is narrowed or widened;
@@ -430,6 +479,8 @@ def _gen_case(rng, tier):
                 sim.random_op(protect)
 
     sim.new_class([])
+    if rng.random() < 0.22:
+        sim.split_shape(filler)
     if shape:
         pre = rng.randint(0, max(0, nops - 8))
         while len(sim.ops) < pre:
@@ -504,8 +555,10 @@ def _op(o):
     k = o["op"]
     if k == "NewClass":
         md = o.get("md")
-        return "(NewClass %s %s %s)" % (_l(o["bases"]), "None" if md is None else "(Some %s)" % _l(md),
-                                        C.cbool(o.get("bi") is not None))
+        old = o.get("old")
+        return "(NewClass %s %s %s %s)" % (_l(o["bases"]), "None" if md is None else "(Some %s)" % _l(md),
+                                           C.cbool(o.get("bi") is not None),
+                                           "None" if old is None else "(Some %s)" % _l(old))
     if k == "NewInstance":
         return "(NewInstance %d)" % o["c"]
     if k == "DropInstance":
@@ -586,8 +639,19 @@ def _py_op(o):
     if k == "NewClass":
         if o.get("bi") is not None:
             return "C%%d = %s    # %%d" % BUILTIN_POOL[o["bi"]].__name__
-        return "C%%d = %s('C%%d', (%s), {})" % ("type" if o.get("m") is None else "M%d" % o["m"],
-                                                "".join("C%d, " % b for b in o["bases"]) or "object,")
+        body = "{}"
+        if o.get("old") is not None:
+            items = ["I%d" % i for i in o["old"]]
+            shape = o.get("oldshape", "tuple")
+            if shape == "single" and len(items) == 1:
+                v = items[0]
+            elif shape == "nested":
+                v = "((%s), [(%s)])" % ("".join(x + ", " for x in items[:1]), "".join(x + ", " for x in items[1:]))
+            else:
+                v = "(" + "".join(x + ", " for x in items) + ")"
+            body = "{'__implemented__': %s}" % v
+        return "C%%d = %s('C%%d', (%s), %s)" % ("type" if o.get("m") is None else "M%d" % o["m"],
+                                                "".join("C%d, " % b for b in o["bases"]) or "object,", body)
     if k == "NewInstance":
         return "o%%d = C%d()" % o["c"]
     if k == "DropInstance":
@@ -813,7 +877,9 @@ LEVEL_TEXT = ("Machine-checked theorems (Properties/C01.v, 29 theorems, closed u
               "C01_generated_* theorems state that _classImplements_ordered, classImplements, classImplementsOnly, "
               "classImplementsFirst, _add_interfaces_to_cls, the Provides factory, Provides.changed, directlyProvides, "
               "alsoProvides, noLongerProvides and directlyProvidedBy AS TRANSLATED FROM THE CURRENT SOURCE TEXT equal the "
-              "model's definitions on every state; the model is also compared with the C and Python implementations on "
+              "model's definitions on every state, and implementedBy itself (dict lookup, builtin table, creation from the "
+              "bases' specifications, the store) equals the lazy-creation model; C01_lazy_* theorems state that lazy "
+              "creation and any interleaving of first queries are invisible; the model is also compared with the C and Python implementations on "
               "generated histories on every run and the implementation's raw answers are judged by the ledger inside Coq.")
 LEVEL_NOTE = ("Trusted: Coq kernel/vm_compute; the translator and the object-protocol primitives it targets; 'implied = "
               "reachable' (C02/C03) as working definition; eager creation of class specifications and no weak death of "
